@@ -72,6 +72,30 @@ theorem tampered_block_rejects_push (sc : Scheme SK PK Content S) (sk : SK) (c c
   · obtain ⟨sk', hp, hs⟩ := sc.unforgeable _ _ _ hx
     exact absurd (sc.binding sk sk' c c' hp hs).symm h
 
+/-- **"ok" means untouched**: whatever verifies against the signature the author made over `c` IS `c` -/
+theorem ok_means_untouched (sc : Scheme SK PK Content S) (sk : SK) (c c' : Content)
+    (h : verifyWithKey sc ⟨c', some ⟨sc.pk sk, sc.sign sk c⟩⟩ (sc.pk sk) = .ok) : c' = c := by
+  apply Classical.byContradiction
+  intro hne
+  rw [tamper_fails sc sk c c' hne] at h
+  cases h
+
+/-- **later field blocks are covered by the composite's signature** (`signBlock` signs composites and only the
+    first block of a field: "the integrity of the field data is guaranteed by signatures of the parent composite
+    blocks"): identifiers being content hashes (`cid`, injective), every field block that a composite verifying under
+    the author's signature links is one of the field blocks the author linked — a replaced field block has another
+    identifier, and a composite re-pointed at it no longer verifies -/
+theorem linked_field_blocks_are_the_authors {FD : Type} (cid : FD → Nat) (hinj : ∀ a b, cid a = cid b → a = b)
+    (sc : Scheme SK PK Content S) (sk : SK) (authored : List FD) (c c' : Content)
+    (hlinks : c.links = authored.map cid)
+    (h : verifyWithKey sc ⟨c', some ⟨sc.pk sk, sc.sign sk c⟩⟩ (sc.pk sk) = .ok)
+    (fd : FD) (hfd : cid fd ∈ c'.links) : fd ∈ authored := by
+  have := ok_means_untouched sc sk c c' h
+  subst this
+  rw [hlinks] at hfd
+  obtain ⟨a, ha, e⟩ := List.mem_map.mp hfd
+  rw [← hinj a fd e]; exact ha
+
 /-! non-vacuity with the toy scheme -/
 example : verifyWithKey toy ⟨⟨1, 1, [], [2], none⟩, some ⟨7, toy.sign 7 ⟨1, 1, [], [2], none⟩⟩⟩ 7 = .ok := by decide
 example : verifyWithKey toy ⟨⟨9, 1, [], [2], none⟩, some ⟨7, toy.sign 7 ⟨1, 1, [], [2], none⟩⟩⟩ 7 = .invalid := by decide
